@@ -301,7 +301,38 @@ func drain(it kvdb.Iterator, max int) (out []string, n int, err error) {
 // Run executes the ops and returns the observation tokens.  stat is called with op kinds and
 // a few behaviour markers.
 func (s *Stack) Run(ops [][]string, stat func(string)) (obs []string) {
-	batches := map[string]kvdb.Batch{}
+	// A batch slot remembers its handle and its operations so that the harness stays total on
+	// arbitrary (e.g. shrunk) histories: an unbound slot behaves as a batch on handle "0", and a
+	// batch touched again after Write without Reset is rebuilt from its recorded operations
+	// (pebble panics with "batch already applied" otherwise; generated histories always Reset).
+	type bslot struct {
+		b       kvdb.Batch
+		h       string
+		ops     [][]string
+		written bool
+	}
+	slots := map[string]*bslot{}
+	slot := func(id string, forWrite bool) *bslot {
+		sl := slots[id]
+		if sl == nil {
+			sl = &bslot{h: "0"}
+			sl.b = s.handle(sl.h).NewBatch()
+			slots[id] = sl
+		}
+		if forWrite && sl.written {
+			stat("batch_rebuilt")
+			sl.b = s.handle(sl.h).NewBatch()
+			for _, o := range sl.ops {
+				if o[0] == "P" {
+					_ = sl.b.Put(Bytes(o[1]), Bytes(o[2]))
+				} else {
+					_ = sl.b.Delete(Bytes(o[1]))
+				}
+			}
+			sl.written = false
+		}
+		return sl
+	}
 	var snaps []kvdb.Snapshot
 	live := map[string]kvdb.Iterator{}
 	defer func() {
@@ -357,18 +388,26 @@ func (s *Stack) Run(ops [][]string, stat func(string)) (obs []string) {
 				stat("it_nonempty")
 			}
 		case "bnew":
-			batches[o[1]] = s.handle(o[2]).NewBatch()
+			slots[o[1]] = &bslot{b: s.handle(o[2]).NewBatch(), h: o[2]}
 		case "bput":
-			fail("bput", batches[o[1]].Put(Bytes(o[2]), Bytes(o[3])))
+			sl := slot(o[1], true)
+			fail("bput", sl.b.Put(Bytes(o[2]), Bytes(o[3])))
+			sl.ops = append(sl.ops, []string{"P", o[2], o[3]})
 		case "bdel":
-			fail("bdel", batches[o[1]].Delete(Bytes(o[2])))
+			sl := slot(o[1], true)
+			fail("bdel", sl.b.Delete(Bytes(o[2])))
+			sl.ops = append(sl.ops, []string{"D", o[2]})
 		case "bwrite":
-			fail("bwrite", batches[o[1]].Write())
+			sl := slot(o[1], true)
+			fail("bwrite", sl.b.Write())
+			sl.written = true
 		case "breset":
-			batches[o[1]].Reset()
+			sl := slot(o[1], false)
+			sl.b.Reset()
+			sl.ops, sl.written = nil, false
 		case "brep":
 			r := &recorder{}
-			fail("brep", batches[o[1]].Replay(r))
+			fail("brep", slot(o[1], false).b.Replay(r))
 			n := 0
 			for _, t := range r.out {
 				if t == "P" || t == "D" {
